@@ -152,7 +152,7 @@ def run(chk, facts, tier, only=None):
     import de_rules
     if not only or only == "C04.R2":
         chk.run_rule("C04.R2", "type names are resolved before any test of the expected / wire type (aliases of opt/null/reserved are honoured)",
-                     lambda: de_rules.rule_unrolled(chk, facts))
+                     lambda: (de_rules.rule_unrolled(chk, facts), de_rules.rule_raw_field_tests(chk, facts)))
     if not only or only in ("C04.R3", "C04.R4"):
         import c05
         chk.include(c05, "C05.R1", "C04.R3", facts)     # what the checker accepts is what the spec's rules accept
